@@ -32,7 +32,8 @@ J2 == ObjBody([DashLeaves EXCEPT !["v"] = "J2", !["a"] = "s1"])
 J3 == ObjBody([DashLeaves EXCEPT !["v"] = "J3", !["n"] = "{}", !["n.x"] = "s2"])
 R1 == RawBody(<<"R1">>)
 R2 == RawBody(<<"R2">>)
-BodyOf(t) == CASE t = "J1" -> J1 [] t = "J2" -> J2 [] t = "J3" -> J3 [] t = "R1" -> R1 [] t = "R2" -> R2
+JB == ObjBody([DashLeaves EXCEPT !["v"] = "JB", !["a"] = "big"])
+BodyOf(t) == CASE t = "JB" -> JB [] t = "J1" -> J1 [] t = "J2" -> J2 [] t = "J3" -> J3 [] t = "R1" -> R1 [] t = "R2" -> R2
                [] OTHER -> NoBody
 ExpToks == {"0", "E1", "E2", "R1"}
 CasClasses == {"zero", "cur", "stale", "never"}
@@ -55,13 +56,18 @@ PlainSets == { s \in SetChoices : ~AnyMacro(s) }
 
 A0 == [key |-> "k1", exp |-> "0", pres |-> FALSE, casc |-> "zero", cas |-> 0, body |-> NoBody,
        btok |-> "", hasbody |-> FALSE, json |-> FALSE, opt |-> "", sets |-> NoSets, dels |-> NoDels,
-       db |-> FALSE, amt |-> 0, def |-> 0, path |-> "-", val |-> "", newcas |-> 0, newc |-> "hi", cb |-> ""]
-WithBody(a, t) == [a EXCEPT !.btok = t, !.body = BodyOf(t), !.hasbody = (t # "")]
+       db |-> FALSE, amt |-> 0, def |-> 0, path |-> "-", val |-> "", newcas |-> 0, newc |-> "hi", cb |-> "",
+       big |-> FALSE, badx |-> FALSE]
+WithBody(a, t) == [a EXCEPT !.btok = t, !.body = BodyOf(t), !.hasbody = (t # ""), !.big = (t = "JB")]
+BadSets == [NoSets EXCEPT !["_s"] = XA("xbad", FALSE, FALSE)]
+BigSets == [NoSets EXCEPT !["u"] = XA("xbig", FALSE, FALSE), !["_s"] = XA("x1", FALSE, FALSE)]
+Flagged(a) == [a EXCEPT !.big = (a.big \/ a.sets = BigSets), !.badx = (a.sets = BadSets)]
 
 (* All argument records of one operation (before CAS classes are resolved). *)
 ArgsFor(op) ==
     CASE op = "Set" ->
            {WithBody([A0 EXCEPT !.exp = e, !.pres = p], b) : e \in ExpToks, p \in BOOLEAN, b \in {"J1", "J2", "J3"}}
+           \cup {WithBody([A0 EXCEPT !.exp = "E1"], "JB")}
       [] op = "SetRaw" ->
            {WithBody([A0 EXCEPT !.exp = e, !.pres = p], b) : e \in ExpToks, p \in BOOLEAN, b \in {"R1", "R2"}}
       [] op = "Add" -> {WithBody([A0 EXCEPT !.exp = e], b) : e \in ExpToks, b \in {"J1", "J2"}}
@@ -79,7 +85,7 @@ ArgsFor(op) ==
       [] op = "Incr" -> {[A0 EXCEPT !.amt = m, !.def = d, !.exp = e] : m \in {0, 1, 2}, d \in {0, 3}, e \in {"0", "E1"}}
       [] op = "Touch" -> {[A0 EXCEPT !.exp = e] : e \in ExpToks}
       [] op = "GetAndTouchRaw" -> {[A0 EXCEPT !.exp = e] : e \in ExpToks}
-      [] op = "SetXattrs" -> {[A0 EXCEPT !.sets = s] : s \in PlainSets}
+      [] op = "SetXattrs" -> {Flagged([A0 EXCEPT !.sets = s]) : s \in PlainSets \cup {BadSets, BigSets}}
       [] op = "UpdateXattrs" ->
            {[A0 EXCEPT !.exp = e, !.casc = c, !.sets = s] : e \in {"0", "E1"}, c \in CasClasses, s \in SetChoices}
       [] op = "RemoveXattrs" -> {[A0 EXCEPT !.casc = c, !.dels = d] : c \in CasClasses, d \in DelChoices}
@@ -88,6 +94,9 @@ ArgsFor(op) ==
            {WithBody([A0 EXCEPT !.exp = e, !.casc = c, !.sets = s, !.dels = d, !.pres = p], b) :
                e \in {"0", "E1"}, c \in CasClasses, s \in SetChoices \cup {NoSets},
                d \in {NoDels, Dels1("_t"), Dels1("u")}, p \in BOOLEAN, b \in {"", "J1", "J2"}}
+           \cup {Flagged(WithBody([A0 EXCEPT !.exp = "E1", !.casc = c, !.sets = s], b)) :
+                    c \in {"zero", "cur"}, s \in {BadSets, BigSets}, b \in {"", "J1"}}
+           \cup {WithBody([A0 EXCEPT !.casc = c, !.sets = Sets1("_s", XA("x2", TRUE, FALSE))], "JB") : c \in {"zero", "cur"}}
       [] op = "WriteTombstoneWithXattrs" ->
            {[A0 EXCEPT !.exp = e, !.casc = c, !.sets = s, !.dels = d, !.db = db] :
                e \in {"0", "E1"}, c \in CasClasses, s \in SetChoices,
